@@ -11,6 +11,17 @@ PY = "/venv/bin/python"
 
 # property -> (technique, level text, level note, design ref)
 CLAIMED = {
+    "C19": ("TLA+ state machine of the netCDF file as seen through dimarray.io.nc (spec/NcStore.tla: write_nc of Datasets and arrays with modes "
+            "w / w- / a / a+, open_nc setitem, two formats; invariant Consistent, action properties AppendKeeps / FailUnchanged) model-checked by TLC; "
+            "every edge replayed against dimarray with a documented netCDF4 stand-in, the file read back after every step; JSON round trip per array",
+            "TLC checks the machine to depth 3 (thorough 4) and emits every edge of the depth-2 (3) graph; each path is replayed under both read "
+            "profiles of the stand-in (always-masked and mask-if-missing): after every write the file is read back with read_nc and compared with the "
+            "machine's file content (dimension order, axis labels and kinds, variable order, dims, cells incl. NaN, dtype kind, metadata on dataset / "
+            "variable / axis level), failed writes must leave the file unchanged and in-memory objects are snapshotted. from_json(to_json(a)) is "
+            "checked for every pool array.",
+            "Trusted: TLC, NumPy and harness/ncstub/netCDF4 (the netCDF4-python API contract, not the C library or the byte format). "
+            "str data / labels are not written to NETCDF3; appended arrays agree with the file on shared labels.",
+            "5 (C19), 9.1"),
     "C05": ("TLA+ state machine of a session of DimArrays in registers (spec/Workspace.tla: 16 actions incl. in-place ones and cache-populating "
             "queries; invariant AllWellFormed) model-checked by TLC; every edge of the bounded graphs and seeded random programs replayed with "
             "well-formedness observation of every constructed DimArray and the fresh-twin rule; constructor forms from spec/MC_C05.tla",
